@@ -563,3 +563,16 @@ package j5schema
 //@   ensures entity.key: result1 == nil && psmKey(src) != nil ==> typeis(result0, *schema_j5pb.Field_Key) && rKey(result0) != nil && rKey(result0).Entity != nil && rKey(result0).Entity.TenantKey == psmKey(src).TenantType
 //@   |   && (psmKey(src).PrimaryKey ==> typeis(rKey(result0).Entity.Type, *schema_j5pb.EntityKey_PrimaryKey) && as(*schema_j5pb.EntityKey_PrimaryKey, rKey(result0).Entity.Type).PrimaryKey)
 //@   |   && (!psmKey(src).PrimaryKey && psmKey(src).ForeignKey != nil ==> typeis(rKey(result0).Entity.Type, *schema_j5pb.EntityKey_ForeignKey) && as(*schema_j5pb.EntityKey_ForeignKey, rKey(result0).Entity.Type).ForeignKey == psmKey(src).ForeignKey)
+
+// a failed build is undone completely: the helpers that list and drop cache entries keep every package map
+// well formed (dropping entries cannot break "every entry is unlinked or linked to a usable schema")
+//@ func (*SchemaCache).cachedNames
+//@   requires allPkgsOK()
+//@   ensures wf: allPkgsOK() && result != nil
+//@   loop 0 invariant allPkgsOK() && names != nil
+//@   loop 1 invariant allPkgsOK() && names != nil && inPkg != nil
+//@ func (*SchemaCache).dropNamesNotIn
+//@   requires allPkgsOK()
+//@   ensures wf: allPkgsOK()
+//@   loop 0 invariant allPkgsOK()
+//@   loop 1 invariant allPkgsOK() && pkg != nil && pkg.Schemas != nil
